@@ -343,6 +343,10 @@ structure Repairs where
   /-- `write_file` stores a hole in slot 0 of the index block when the file image has no chunk 0, instead of the
   entry's provisional key pointer (`proposed_fixes/prodos-put-first-chunk-hole.diff`) -/
   firstHole : Bool := false
+  /-- `put` checks the lengths of the file image's `fs_type`, `version`, `min_version`, `aux` and `access` fields before it
+  touches the directory, instead of `Entry::create_file` refusing (or `access[0]` panicking) after the file count of the
+  directory has been raised (`proposed_fixes/prodos-put-field-lengths.diff`) -/
+  fieldsFirst : Bool := false
   deriving Repr, Inhabited, DecidableEq
 
 /-- `struct Disk`: image, `total_blocks` (fixed by `from_img`), `maybe_bitmap`, `bitmap_blocks`; `src` is not state of
@@ -1154,6 +1158,9 @@ def put (f : FImg) (time : Bytes) (rp : Repairs := {}) : M Nat := do
   if !f.fsOk then M.fail .ioError
   else if f.chunkLen ≠ blockSize then M.fail .range
   else if f.chunks.length = 0 then M.fail .endOfData
+  -- repaired source only: the fields the entry needs are checked before anything is written
+  else if rp.fieldsFirst ∧ (f.fsType.length < 1 ∨ f.version.length < 1 ∨ f.minVersion.length < 1 ∨ f.aux.length < 2 ∨ f.access.length < 1) then
+    M.fail .range
   -- repaired source only: at most 128 index blocks of 256 blocks, 24-bit end of file
   else if rp.putLimits ∧ (f.end_ > 128 * 256 ∨ f.eof > 0xffffff) then M.fail .range
   else do
